@@ -105,10 +105,14 @@ def case_arith(c):
         V('tbin', 'tbin=%r' % be.tbin)
     stem = os.path.join(engine.workdir(), 'c20a')
     outcomes = set()
-    for n in c['num_blocks']:
+    # packet-counter cards the caller may supply: none, only a start, only a first index, both (different)
+    HDS = ({}, {'PKTSTART': 4096}, {'PKTIDX': 100}, {'PKTSTART': 4096, 'PKTIDX': 100})
+    for n, hd in [(n_, h_) for n_ in c['num_blocks'] for h_ in HDS]:
         del cap[:]
+        pkt0 = hd.get('PKTIDX', 0)
+        pstart = hd.get('PKTSTART', pkt0)
         try:
-            be.record(output_file_stem=stem, num_blocks=t(n), length_mode='num_blocks', header_dict={},
+            be.record(output_file_stem=stem, num_blocks=t(n), length_mode='num_blocks', header_dict=dict(hd),
                       load_template=False, verbose=False)
         except Exception as e:
             V('record_raised', 'num_blocks=%d: %s: %s' % (n, type(e).__name__, e), site='RawVoltageBackend.record')
@@ -129,11 +133,11 @@ def case_arith(c):
             h = cap[0]
             if abs(F(h['SCANLEN']) - ol_x) > Fr(1, 10**12) * ol_x:
                 V('scanlen', 'SCANLEN=%r exact %r' % (h['SCANLEN'], float(ol_x)), site='RawVoltageBackend.record')
-            if int(h['PKTSTOP']) - int(h['PKTSTART']) != n * spb:
-                V('pktstop', 'PKTSTOP-PKTSTART=%r expected %d' % (int(h['PKTSTOP']) - int(h['PKTSTART']), n * spb),
+            if int(h['PKTSTART']) != pstart or int(h['PKTSTOP']) - int(h['PKTSTART']) != n * spb:
+                V('pktstop', 'caller cards %r: PKTSTART=%r PKTSTOP=%r, expected %d and %d + %d' % (hd, h['PKTSTART'], h['PKTSTOP'], pstart, pstart, n * spb),
                   site='RawVoltageBackend.record')
-            if cap[-1]['PKTIDX'] != int(h['PKTSTART']) + (n - 1) * spb:
-                V('pktidx', 'last PKTIDX=%r' % cap[-1]['PKTIDX'], site='RawVoltageBackend.record')
+            if cap[-1]['PKTIDX'] != pkt0 + (n - 1) * spb:
+                V('pktidx', 'caller cards %r: last PKTIDX=%r expected %d' % (hd, cap[-1]['PKTIDX'], pkt0 + (n - 1) * spb), site='RawVoltageBackend.record')
         # stand-alone helper
         try:
             g = sv.get_total_obs_num_samples(num_blocks=t(n), length_mode='num_blocks', num_antennas=t(na),
